@@ -23,6 +23,7 @@ Holds(c, h, k) ==
     [] c = "DocStrMatch"    -> DocStrMatch(h, k)
     [] c = "LevelsFollow"   -> LevelsFollow(h)
     [] c = "SvcSubApp"      -> SvcSubApp(h)
+    [] c = "NoForeign"      -> NoForeign(h)
     [] c = "BoundLevelsSee" -> BoundLevelsSee(h, k)
     [] c = "SrOnce"         -> SrOnce(h, k)
     [] c = "CloseAfterBody" -> CloseAfterBody(h, k)
